@@ -52,7 +52,8 @@ def _as_clauses(r):
 
 
 class RT:
-    def __init__(self, loops=None, fname="f", super_obj=None):
+    def __init__(self, loops=None, fname="f", super_obj=None, literals=None):
+        self.literals = literals or {}
         self.loops = loops or {}
         self.fname = fname
         self.super_obj = super_obj
@@ -229,10 +230,12 @@ class RT:
         return g
 
     def new_dict(self):
-        return SymDict()
+        f = self.literals.get("dict")
+        return f() if f else SymDict()
 
     def new_list(self):
-        return SymList()
+        f = self.literals.get("list")
+        return f() if f else SymList()
 
     def super_(self, obj):
         if self.super_obj is None:
